@@ -262,6 +262,26 @@ func (b *UB) BadBlock(name, parent, proposer string, txs []*pb.Transaction, extr
 	return blk
 }
 
+// BadBlockRaw registers a block formatted on parent with exactly the given
+// transaction list (the caller supplies the coinbase), without executing it.
+func (b *UB) BadBlockRaw(name, parent, proposer string, list []*pb.Transaction) *pb.InternalBlock {
+	p := b.U.Block(parent)
+	b.ts++
+	height := p.Height + 1
+	var cl []*pb.Transaction
+	for _, t := range list {
+		cl = append(cl, CloneTx(t))
+	}
+	k := Keys[proposer]
+	blk, err := b.W.Ledger.FormatMinerBlock(cl, []byte(k.Address), k.Priv, b.ts, 0, 0, p.Blockid, 0, b.W.State.GetTotal(), nil, nil, height)
+	if err != nil {
+		panic(err)
+	}
+	b.U.putBlock(name, parent, blk)
+	b.U.Bad[name] = true
+	return blk
+}
+
 // Done finishes building.
 func (b *UB) Done() *Universe {
 	if len(b.pending) > 0 {
